@@ -30,10 +30,10 @@ class Potentiometer:
     def read(self) -> int:
         """Return the most recent analogue value (0-1023)."""
 
-        if self._value_provider is None:
-            value = 0
-        else:
-            value = int(self._value_provider())
-        if value < 0 or value > 1023:
+        raw = 0 if self._value_provider is None else self._value_provider()
+        value = int(raw)
+        # check the reading itself as well: -0.5 truncates to 0 but is not a valid reading
+        out_of_range = isinstance(raw, (int, float)) and not 0 <= raw <= 1023
+        if out_of_range or value < 0 or value > 1023:
             raise ValueError("potentiometer value must be between 0 and 1023")
-        return int(value)
+        return value
